@@ -1,6 +1,7 @@
 (* C31 — property theorems only.  Times in milliseconds since the call. *)
 From Coq Require Import NArith List.
-From RQ Require Import Model.C31 Proofs.C31.
+From RQ Require Import Lib.C34_Sched Model.C34 Model.C31 Proofs.C31.
+Import ListNotations.
 Open Scope N_scope.
 
 Theorem C31_retry_spec : forall timeout i r, 0 < i ->
@@ -32,3 +33,25 @@ Theorem C31_close :
     (close_timeout + close_interval < hold -> exists t, close_gate hold = TimedOut t).
 Proof. exact close_spec. Qed.
 Print Assumptions C31_close.
+
+(* Second tie (DESIGN 3.5, docs/gotrans.md): CheckAndSet.BeginWithRetry as translated from internal/rsync/cas.go on this
+   run (explicit clock, fuelled loop, Begin answering as the model's environment: held by somebody else until r)
+   is the hand model's begin_with_retry. *)
+From Coq Require Import String.
+From RQ Require Import Lib.GoLib Gen.CasRetry Proofs.C31_Gen.
+Theorem C31_source_derived_eq : forall fuel timeout interval r c owner,
+  outcome_of (gen_bwr fuel timeout interval r c owner) = begin_with_retry fuel timeout interval r.
+Proof. exact gen_BeginWithRetry_eq. Qed.
+Print Assumptions C31_source_derived_eq.
+
+Theorem C31_gate_refusal_keeps_holder : forall l s t o,
+  run cas_enabled cas_step cas_init l = Some s -> c_holders s <> [] ->
+  cas_step_obs s (CBegin t o) = (s, Conflict).
+Proof. exact gate_refusal_keeps_holder. Qed.
+Print Assumptions C31_gate_refusal_keeps_holder.
+
+Theorem C31_gate_holder_until_own_end : forall l s h a,
+  run cas_enabled cas_step cas_init l = Some s -> c_holders s = [h] ->
+  cas_enabled s a = true -> a <> CEnd h -> c_holders (cas_step s a) = [h] /\ c_owner (cas_step s a) = c_owner s.
+Proof. exact gate_holder_until_own_end. Qed.
+Print Assumptions C31_gate_holder_until_own_end.
